@@ -216,8 +216,10 @@ Print Assumptions C14_duplicates_groups_perm.
    hypotheses hold, the answers coincide and are not trivial *)
 Local Open Scope string_scope.
 Definition ex_files : list pfile :=
-  [ {| pf_path := [nm "src"; nm "m.c"]; pf_nodes := [[1%Z]; [2%Z]; [3%Z]; [4%Z]; [5%Z]; [6%Z]] |};
-    {| pf_path := [nm "a-b"; nm "n.c"]; pf_nodes := [[1%Z; 2%Z]] |} ].
+  [ {| pf_path := [nm "src"; nm "m.c"]; pf_real := [nm "src"; nm "m.c"]; pf_nodes := [[1%Z]; [2%Z]; [3%Z]; [4%Z]; [5%Z]; [6%Z]] |};
+    {| pf_path := [nm "a-b"; nm "n.c"]; pf_real := [nm "a-b"; nm "n.c"]; pf_nodes := [[1%Z; 2%Z]] |};
+    (* a symbolic link to src/m.c under a name of another language class *)
+    {| pf_path := [nm "m.F90"]; pf_real := [nm "src"; nm "m.c"]; pf_nodes := [[1%Z]; [2%Z]; [3%Z]; [4%Z]; [5%Z]; [6%Z]] |} ].
 Definition ex_events : list event :=
   [ {| ev_plat := nm "gpu"; ev_nodes := [([nm "src"; nm "m.c"], 0%Z); ([nm "src"; nm "m.c"], 1%Z); ([nm "src"; nm "m.c"], 2%Z)] |};
     {| ev_plat := nm "cpu"; ev_nodes := [([nm "src"; nm "m.c"], 0%Z); ([nm "src"; nm "m.c"], 1%Z); ([nm "src"; nm "m.c"], 4%Z)] |};
@@ -228,7 +230,7 @@ Example C14_nonvacuous :
   p_answer_f ex_files ex_events ex_events = p_answer_f (rev ex_files) (rev ex_events) (rev ex_events) /\
   map (fun r => (map string_of_name (fst r), snd r)) (summary_rows (get_setmap ex_events (iter_codebase ex_files)))
     = [([], 2%Z); (["cpu"], 3%Z); (["gpu"], 1%Z); (["cpu"; "gpu"], 2%Z)] /\
-  map pf_path (iter_codebase (rev ex_files)) = [[nm "a-b"; nm "n.c"]; [nm "src"; nm "m.c"]].
+  map pf_path (iter_codebase (rev ex_files)) = [[nm "a-b"; nm "n.c"]; [nm "m.F90"]; [nm "src"; nm "m.c"]].
 Proof.
   split; [apply Permutation_rev|]. split; [repeat constructor; cbn; intuition discriminate|].
   split; [discriminate|]. split; [apply Permutation_rev|].
